@@ -154,7 +154,9 @@ class Operator:
                         self.logger.debug(
                             "The antecedents of the universal effect hold."
                         )
-                        grounded_conditional_effect.apply(current_state)
+                        grounded_conditional_effect.apply(
+                            current_state, previous_state=previous_state
+                        )
 
                 self.logger.debug(
                     "Removing the temporarily added signature item from the action."
@@ -210,7 +212,7 @@ class Operator:
                 )
                 continue
 
-            effect.apply(new_state)
+            effect.apply(new_state, previous_state=previous_state)
 
         self._apply_universal_effects(previous_state, new_state)
         return new_state
